@@ -17,7 +17,10 @@ void ptr_enumerate(MVal *doc, std::vector<std::pair<std::string, MVal *>> &out, 
 // on failure *doc is in an unspecified (but valid) state.
 bool rfc6902_apply_op(MVal **doc, const MVal *op, std::string &why);
 bool rfc6902_apply(MVal **doc, const MVal *patch, std::string &why);
-// RFC 6902 equality (section 4.6)
+// RFC 6902 equality (section 4.6). Numbers: exact, or - when rfc_number_tolerant is set - the library's own notion of
+// numeric equality (relative DBL_EPSILON, property C12). Oracles that must not depend on which of the two a reader means
+// evaluate both ways and accept agreement with either.
+extern bool rfc_number_tolerant;
 bool rfc_equal(const MVal *a, const MVal *b);
 
 // RFC 7396: returns the new target (consumes and frees `target`, which may be NULL for "absent")
